@@ -1,16 +1,15 @@
 (* Property C07 - numbers print correctly rounded, grouped and signed in every format setting.
    STATEMENTS ONLY (proofs: Proofs/C07.v).  Model functions: Format.format_number (with
-   Format.group_loop, Format.fract_information, Format.powi10), Format.item_print for INumber,
-   IPercent, IMoney, IDynamicType; at binary64 the renderings are FloatIO.f64_to_fixed ("{:.N}")
-   and FloatIO.f64_to_display ("{}").
-   Reference (Proofs/C07.v): group3 (separator in front of every complete group of three counted
-   from the right), int_part / frac_part (a rendering split at its '.'), spec_print (sign, grouped
-   integer part, decimal separator and fraction; fraction omitted iff there is none, or removal
-   is on and all its digits are zero), money_place.
-   KNOWN FINDING (class C07-double-rounding): format_number takes every digit from the rendering of
-   |x| but the LENGTH of the integer part and the zero-fraction test from a separately rounded copy
-   round(x*10^n)/10^n.  [Inconsistent x n rnd] says the two disagree; outside it the print is the
-   specified one (C07_format_consistent), inside it the print is wrong (C07_inconsistent_refuted). *)
+   Format.group_loop), Format.item_print for INumber, IPercent, IMoney, IDynamicType; at binary64
+   the renderings are FloatIO.f64_to_fixed ("{:.N}") and FloatIO.f64_to_display ("{}").
+   Reference (Proofs/C07.v, Spec/Fixed.v): group3 (separator in front of every complete group of
+   three counted from the right), int_part / frac_part (a rendering split at its '.'), spec_print
+   (sign, grouped integer part, decimal separator and fraction; fraction omitted iff there is none,
+   or removal is on and all its digits are zero), money_place, fixed_scaled (half-even rounding of
+   the exact binary64 value).
+   The former known finding C07-double-rounding (integer-part length and zero-fraction test taken
+   from a separately rounded copy) was repaired in /repo 9ef4dcc; C07_format_correct is now
+   unconditional and C07_former_witnesses computes the old witnesses. *)
 From SC.Model Require Import Base Num NumF64 FloatIO Types Config Case Chrono Parser Format Run64.
 From SC.Spec Require Import Fixed.
 From SC.Gen Require Import ConfigData.
@@ -38,45 +37,19 @@ Qed.
 Section WithNum.
 Context {F : Type} {NF : Num F}.
 
-(* ---- the decision table of format_number, any number algebra ---- *)
-Theorem C07_format_structure : forall (x : F) (tsep dsep : str) (digits : N) (rm rnd : bool),
-  format_number x tsep dsep digits rm rnd =
-  match fmt_fract x digits with
-  | None => Panic SITE_FI_FUEL
-  | Some fp =>
-    let ts := length (fmt_trunc_part x digits) in
-    let st := fmt_string x digits rnd in
-    if Nat.ltb (length st) ts then Panic SITE_NTH_UNWRAP
-    else Ok (sign_str x ++ group3 tsep (firstn ts st) ++
-             (if ((0 <? fp) || negb rm) && negb (Nat.eqb ts (length st))
-              then dsep ++ skipn (S ts) st else []))
-  end.
-Proof. exact format_number_structure. Qed.
-
-(* ---- outside the known class the print is the specified one: all values, digits, separator
-        strings, both flags ---- *)
-Theorem C07_format_consistent : forall (x : F) (tsep dsep : str) (digits : N) (rm rnd : bool),
-  ~ Inconsistent x digits rnd ->
+(* ---- format_number is the specified print: all values, separator strings, digit counts, both
+        flags, any number algebra; in particular it never panics ---- *)
+Theorem C07_format_correct : forall (x : F) (tsep dsep : str) (digits : N) (rm rnd : bool),
   format_number x tsep dsep digits rm rnd
-  = Ok (spec_print (fltb x f0) tsep dsep rm (fmt_string x digits rnd)).
-Proof. exact format_consistent. Qed.
-
-(* with zero fractions kept, agreement on the length of the integer part is enough *)
-Theorem C07_format_keep_fraction : forall (x : F) (tsep dsep : str) (digits : N) (rnd : bool),
-  len_agree x digits rnd = true -> fmt_fract x digits <> None ->
-  format_number x tsep dsep digits false rnd
-  = Ok (spec_print (fltb x f0) tsep dsep false (fmt_string x digits rnd)).
-Proof. exact format_keep_fraction. Qed.
-
-Theorem C07_inconsistent_decidable : forall (x : F) digits rnd,
-  {Inconsistent x digits rnd} + {~ Inconsistent x digits rnd}.
-Proof. exact Inconsistent_dec. Qed.
+  = Ok (spec_print (fltb x f0) tsep dsep rm
+          (if rnd then ffixed (fabs x) digits else fdisplay (fabs x))).
+Proof. exact format_correct. Qed.
 
 (* ---- sign: '-' in front exactly for values below zero ---- *)
 Theorem C07_sign : forall (x : F) tsep dsep digits rm rnd out,
   format_number x tsep dsep digits rm rnd = Ok out ->
   starts_minus (fmt_string x digits rnd) = false ->
-  fmt_trunc_part x digits <> [] ->
+  int_part (fmt_string x digits rnd) <> [] ->
   starts_minus out = fltb x f0.
 Proof. exact format_sign. Qed.
 
@@ -114,19 +87,18 @@ Proof. exact print_unit. Qed.
 End WithNum.
 
 (* ---- binary64 ---- *)
-(* the finding: the two roundings disagree and the print is wrong *)
-Theorem C07_inconsistent_refuted :
-  (Inconsistent (v "0.995") 2 true /\ fmt64 "0.995" 2 true true = Ok (s "0") /\ spec64 "0.995" 2 true true = s "0,99") /\
-  (Inconsistent (v "-0.995") 2 true /\ fmt64 "-0.995" 2 true true = Ok (s "-0") /\ spec64 "-0.995" 2 true true = s "-0,99") /\
-  (Inconsistent (v "999999.995") 2 true /\ fmt64 "999999.995" 2 true true = Ok (s "9.999.99.")
-     /\ spec64 "999999.995" 2 true true = s "999.999,99") /\
-  (Inconsistent (v "1e21") 2 true /\ fmt64 "1e21" 2 true true = Ok (s "100.000.000.000.000.000.000")
-     /\ spec64 "1e21" 2 true true = s "1.000.000.000.000.000.000.000") /\
-  (Inconsistent (v "99.995") 2 false /\ fmt64 "99.995" 2 false false = Ok (s "99.,95") /\ spec64 "99.995" 2 false false = s "99,995") /\
-  (Inconsistent (v "999.995") 2 false /\ fmt64 "999.995" 2 false false = Ok (s "9.99.,95")
-     /\ spec64 "999.995" 2 false false = s "999,995") /\
-  (Inconsistent (v "5.001") 2 false /\ fmt64 "5.001" 2 true false = Ok (s "5") /\ spec64 "5.001" 2 true false = s "5,001").
-Proof. exact inconsistent_refuted. Qed.
+(* the witnesses of the repaired defect print as specified *)
+Theorem C07_former_witnesses :
+  fmt64 "0.995" 2 true true = Ok (s "0,99") /\
+  fmt64 "-0.995" 2 true true = Ok (s "-0,99") /\
+  fmt64 "999999.995" 2 true true = Ok (s "999.999,99") /\
+  fmt64 "1e21" 2 true true = Ok (s "1.000.000.000.000.000.000.000") /\
+  fmt64 "1e21" 2 false true = Ok (s "1.000.000.000.000.000.000.000,00") /\
+  fmt64 "99.995" 2 false false = Ok (s "99,995") /\
+  fmt64 "999.995" 2 false false = Ok (s "999,995") /\
+  fmt64 "5.001" 2 true false = Ok (s "5,001") /\
+  fmt64 "1.0005" 3 true true = Ok (s "1").
+Proof. pose proof former_witnesses as H. tauto. Qed.
 
 (* ---- "correctly rounded": the rendering "{:.N}" of the executed instance shows, for a finite
         binary64 (-1)^sg * m * 2^e, the integer nearest to m * 2^e * 10^n, ties to even
@@ -149,27 +121,17 @@ Theorem C07_round_half_even_nearest : forall num den, 0 < den ->
   (2 * Z.abs (num - q * den) = den -> Z.even q = true).
 Proof. exact round_half_even_nearest. Qed.
 
-(* non-vacuity: consistent inputs and their prints (26 rows: ties, values below one unit of the
-   last digit, negative zero, 10^15, the smallest subnormal, 21 integer digits) *)
+(* non-vacuity: 30 prints (ties, values below one unit of the last digit, negative zero, 10^15,
+   10^14 at 9 digits, the smallest subnormal, 21 integer digits) *)
 Theorem C07_examples : forall r, In r good_rows -> good_row_ok r = true.
 Proof. exact good_rows_ok. Qed.
 
-(* the roundings agree on k/8 (|k| <= 100, every tie at 0..2 digits) for digits 0..9, and on
-   10^e with n digits whenever e + n <= 22, in both rounding settings *)
-Theorem C07_grid_consistent : grid_ok = true.
-Proof. exact grid_consistent. Qed.
-
-(* on binary64 the rendering of a magnitude does not start with '-' and the copy's integer part is
-   not empty (the side conditions of C07_sign), checked family x digits 0..9 *)
+(* on binary64 the rendering of a magnitude does not start with '-' and its integer part is not
+   empty (the side conditions of C07_sign), checked family x digits 0..9 *)
 Theorem C07_magnitude_unsigned : forall x n, In x sign_family -> In n digit_range ->
   starts_minus (fmt_string x n true) = false /\ starts_minus (fmt_string x n false) = false /\
-  fmt_trunc_part x n <> [].
+  int_part (fmt_string x n true) <> [] /\ int_part (fmt_string x n false) <> [].
 Proof. exact magnitude_unsigned. Qed.
-
-(* fract_information ends inside the model's fuel (checked family incl. the smallest subnormal) *)
-Theorem C07_fract_terminates : forall x, In x fi_family ->
-  exists z, fract_information x = Some z /\ 0 <= z.
-Proof. exact fract_information_terminates. Qed.
 
 (* every currency of config.json: found by its code, printed with its digits, symbol, placement *)
 Theorem C07_money_table : forall kv, In kv d_currency ->
@@ -194,22 +156,17 @@ Proof. exact wrappers_examples. Qed.
 
 Print Assumptions C07_group3.
 Print Assumptions C07_group3_spec.
-Print Assumptions C07_format_structure.
-Print Assumptions C07_format_consistent.
-Print Assumptions C07_format_keep_fraction.
-Print Assumptions C07_inconsistent_decidable.
+Print Assumptions C07_format_correct.
 Print Assumptions C07_sign.
 Print Assumptions C07_print_number.
 Print Assumptions C07_print_percent.
 Print Assumptions C07_print_money.
 Print Assumptions C07_print_unit.
-Print Assumptions C07_inconsistent_refuted.
+Print Assumptions C07_former_witnesses.
 Print Assumptions C07_fixed_exact.
 Print Assumptions C07_round_half_even_nearest.
 Print Assumptions C07_examples.
-Print Assumptions C07_grid_consistent.
 Print Assumptions C07_magnitude_unsigned.
-Print Assumptions C07_fract_terminates.
 Print Assumptions C07_money_table.
 Print Assumptions C07_money_table_nonempty.
 Print Assumptions C07_wrappers_examples.
